@@ -61,6 +61,15 @@ PROPS = {
 }
 
 
+# per-property configuration fragments written as JSON (propcfg/Cxx.json), same keys as above;
+# "trusted" is appended to COMMON_TRUSTED
+import glob as _glob, json as _json, os as _os
+for _f in sorted(_glob.glob(_os.path.join(_os.path.dirname(_os.path.abspath(__file__)), "propcfg", "*.json"))):
+    _c = _json.load(open(_f))
+    _c["trusted"] = COMMON_TRUSTED + _c.get("trusted", [])
+    PROPS[_c.pop("property")] = _c
+
+
 def case_signature(prop, c):
     """Coarse signature used to avoid printing the same violation many times."""
     tags = c.get("tags") or []
